@@ -180,6 +180,37 @@ impl TaskQueue {
         unsafe { self.with_inner(|inner| inner.hot.head) }
     }
 
+    /// Verification hook: the keys of the hot and of the cold list, each walked from its head through the
+    /// `next` links (as `u64`, `KeyData::as_ffi`), plus the tail of each list as stored. Read-only.
+    #[cfg(compio_verif)]
+    pub fn verif_dump(&self) -> ([Vec<u64>; 2], [Option<u64>; 2]) {
+        use slotmap::Key;
+        unsafe {
+            self.with_inner(|inner| {
+                let walk = |head: Option<TaskId>| {
+                    let mut out = vec![];
+                    let mut cur = head;
+                    // a corrupted list may be cyclic or dangle: stop at the map size / at a dead key
+                    while let Some(k) = cur {
+                        out.push(k.data().as_ffi());
+                        if out.len() > inner.map.len() + 1 {
+                            break;
+                        }
+                        cur = inner.map.get(k).and_then(|it| it.next);
+                    }
+                    out
+                };
+                (
+                    [walk(inner.hot.head), walk(inner.cold.head)],
+                    [
+                        inner.hot.tail.map(|k| k.data().as_ffi()),
+                        inner.cold.tail.map(|k| k.data().as_ffi()),
+                    ],
+                )
+            })
+        }
+    }
+
     pub fn iter_hot(&self) -> Iter<'_> {
         Iter {
             queue: self,
